@@ -493,3 +493,40 @@ Example C19_nonvacuous_two_pretty_objects :
   /\ prop_multi_b cfgs ops [(0%nat, qs "t I x"); (1%nat, qs "t I x"); (0%nat, qs "t I T1 x"); (1%nat, qs "t I x"); (0%nat, qs "t I    x")] = false
   /\ prop_multi_b cfgs ops [(0%nat, qs "t I x"); (1%nat, qs "t I x"); (0%nat, qs "t I T1 x"); (0%nat, qs "t I    x")] = false.
 Proof. vm_compute. repeat split; reflexivity. Qed.
+
+(* ---- round 8: the fluent front-end methods of SimplePipeline, the building blocks of every configuration.
+   [src_fluent] / [src_fluent_special] are translated from simplepipeline.cpp on every run (tools/s2c/fluent.py). *)
+Require Import Coq.Strings.String.
+Require Import QtlVerif.FluentDefs QtlVerif.SrcFluent.
+Theorem C19_fluent_methods_are_the_documented_table :
+  list_eqb fentry_eqb src_fluent spec_fluent = true /\ list_eqb special_eqb src_fluent_special spec_special = true.
+Proof. split; vm_compute; reflexivity. Qed.
+Print Assumptions C19_fluent_methods_are_the_documented_table.
+
+(* no front-end method drops one of its parameters, and only parameterless ones hand out a shared object *)
+Theorem C19_fluent_methods_hand_on_every_parameter :
+  forallb hands_on_every_parameter src_fluent = true /\ forallb shared_only_without_parameters src_fluent = true.
+Proof. split; vm_compute; reflexivity. Qed.
+Print Assumptions C19_fluent_methods_hand_on_every_parameter.
+
+(* the methods whose handler classes C12-C18 reason about construct a NEW object of that class from exactly their
+   parameters, in order: what is proved of Class(args) holds of the handler the fluent call appends *)
+Theorem C19_fluent_methods_of_the_modelled_handlers_are_transparent :
+  forall n k, In (n, k) [("addSeqNumber", 1); ("filter", 1); ("filterLevel", 1); ("filterCategory", 1); ("filterDuplicate", 0);
+                         ("formatPretty", 2); ("formatToJson", 1); ("formatToSentry", 2); ("sendToIODevice", 1)]%string%nat ->
+  exists e, lookup (filter (fun e => negb (String.eqb (fe_class e) "FunctionFilter")) src_fluent) n k = Some e
+            /\ transparent e = true /\ fe_shared e = false /\ fe_guard e = ""%string.
+Proof.
+  intros n k H. cbn [In] in H.
+  repeat (destruct H as [H | H]; [inversion H; subst; eexists; split; [vm_compute; reflexivity | repeat split] |]).
+  contradiction.
+Qed.
+Print Assumptions C19_fluent_methods_of_the_modelled_handlers_are_transparent.
+
+Local Open Scope string_scope.
+Example C19_fluent_nonvacuous :
+  List.length src_fluent = 28%nat
+  /\ hands_on_every_parameter (mk "formatToJson" ["compact"] "" "JsonFormatter" false []) = false
+  /\ shared_only_without_parameters (mk "formatToJson" ["compact"] "" "JsonFormatter" true ["compact"]) = false
+  /\ containsb "url" "QUrl(url)" = true.
+Proof. vm_compute. repeat split. Qed.
